@@ -162,6 +162,26 @@ def gen_tree(rng):
         if rng.random() < 0.5:
             top[rn][1]['main.py'] = gen_file(rng, st)
         roots.append([rn])
+    if rng.random() < 0.4:
+        # directed family: ONE namespace package spread over several roots whose portions hold the same
+        # child names (module in one portion, module / nested namespace / package in another): which
+        # portion wins depends on the order of the portions = the order of sys.path, not on their names
+        nsname = rng.choice(NAMES)
+        shared = rng.sample([x for x in NAMES if x != nsname], 3)
+        grand = rng.choice(NAMES)
+        for rn in list(top):
+            if rng.random() < 0.85:
+                ch = {}
+                for c in shared:
+                    r = rng.random()
+                    if r < 0.45:
+                        ch[c + '.py'] = gen_file(rng, st)
+                    elif r < 0.7:
+                        ch[c] = ['D', {grand + '.py': gen_file(rng, st)}]
+                    elif r < 0.8:
+                        ch[c] = ['D', {'__init__.py': gen_file(rng, st), grand + '.py': gen_file(rng, st)}]
+                top[rn][1].pop(nsname + '.py', None)
+                top[rn][1][nsname] = ['D', ch]
     top['scr'] = ['D', {'main.py': gen_file(rng, st)}]
     if rng.random() < 0.5:
         top['scr'][1][rng.choice(NAMES) + '.py'] = gen_file(rng, st)
